@@ -410,6 +410,16 @@ func (x *Exec) cxCallTerm(env *cxEnv, y *cxCall) Term {
 			r = "(s_base " + v.S + ")"
 		}
 		return tBool(fmt.Sprintf("(and (not (= %s nilRef)) (>= (alloc %s) %s))", r, r, env.old.clk))
+	case "mapTrue":
+		// m[k] for a map[*T]bool: present and true
+		m := x.cxEval(env, y.Args[0])
+		k := x.cxEval(env, y.Args[1])
+		if k.Sort == "Iface" {
+			k = Term{S: "(iref " + k.S + ")", Sort: "Ref"}
+		}
+		x.d.fun("mapget_Ref_Bool", []string{"Ref", "Ref"}, "Bool")
+		x.d.fun("maphas_Ref", []string{"Ref", "Ref"}, "Bool")
+		return tBool(fmt.Sprintf("(and (maphas_Ref %s %s) (mapget_Ref_Bool %s %s))", m.S, k.S, m.S, k.S))
 	case "IsSignature":
 		v := x.cxEval(env, y.Args[0])
 		for _, imp := range x.unit.Pkg.Imports {
